@@ -77,17 +77,17 @@ Proof.
     split; [reflexivity|]. split.
     { destruct rr; subst rg.
       - destruct ph; cbn in *; tauto.
-      - destruct ph; cbn in *; try (destruct Rph as [? ?]; congruence).
-        destruct Rph as [U [[X _]|[_ Y]]]; [discriminate|]. auto. }
+      - destruct ph; cbn in *; intuition congruence. }
     repeat split; auto; try (apply Rb; assumption).
   - (* CInc *)
     assert (Hna : ao = false).
-    { destruct ao; auto. specialize (Hao eq_refl). cbn in Hao. discriminate. }
+    { destruct ao; [specialize (Hao eq_refl); cbn in Hao; discriminate|reflexivity]. }
     cbn in He.
     cbn [crun cstep app cref_walk r_reg r_phase r_sum r_base r_max c_cell c_idle c_reg mk].
     unfold seq_inc, a1, a2, a3. cbn [is_abs last cur upd].
-    apply (IH false la (add64 cu v) (up + 1) idl true); auto.
-    + unfold Rel. cbn [r_reg r_phase r_sum r_base r_max].
+    apply (IH false la (add64 cu v) (up + 1) idl true);
+      [|exact Hwf'|intros E; specialize (Hio E); cbn in Hio; exact Hio|intros E; rewrite Hna in E; discriminate].
+    unfold Rel. cbn [r_reg r_phase r_sum r_base r_max].
       split; [reflexivity|]. split; [cbn; split; [lia|reflexivity]|].
       split; [lia|]. split; [apply add64_lt|]. split; [exact Rla|].
       split; [intros E; rewrite <- (Rio E); apply sub64_add; assumption|].
@@ -95,18 +95,18 @@ Proof.
       intros Hb. destruct (Rb Hb) as [B1 B2]. cbn [amax incs fold_right] in B2.
       fold (amax rest) in B2. fold (incs rest) in B2.
       rewrite add64_small by lia. split; lia.
-    + intros E. specialize (Hio E). cbn in Hio. exact Hio.
   - (* CAbs *)
     assert (Hni : io = false).
-    { destruct io; auto. specialize (Hio eq_refl). cbn in Hio. discriminate. }
+    { destruct io; [specialize (Hio eq_refl); cbn in Hio; discriminate|reflexivity]. }
     cbn in He.
     cbn [crun cstep app cref_walk r_reg r_phase r_sum r_base r_max c_cell c_idle c_reg mk].
     unfold seq_abs, b1. cbn [is_abs].
     destruct ia.
     + (* already absolute: fetch_max *)
       unfold b3, a3. cbn [is_abs last cur upd fix_absmax all_fixed negb andb].
-      apply (IH true la (N.max cu v) (up + 1) idl true); auto.
-      * unfold Rel. cbn [r_reg r_phase r_sum r_base r_max].
+      apply (IH true la (N.max cu v) (up + 1) idl true);
+        [|exact Hwf'|intros E; rewrite Hni in E; discriminate|intros E; specialize (Hao E); cbn in Hao; exact Hao].
+      unfold Rel. cbn [r_reg r_phase r_sum r_base r_max].
         split; [reflexivity|]. split; [cbn; split; [lia|reflexivity]|].
         split; [lia|]. split; [lia|]. split; [exact Rla|].
         split; [rewrite Hni; discriminate|].
@@ -116,11 +116,11 @@ Proof.
           - destruct Rao as (X & _). discriminate. }
         intros Hb. destruct (Rb Hb) as [B1 B2]. cbn [amax incs fold_right] in B2.
         fold (amax rest) in B2. fold (incs rest) in B2. split; lia.
-      * intros E. specialize (Hao E). cbn in Hao. exact Hao.
     + (* re-basing absolute *)
       unfold b2, b3, a3. cbn [is_abs last cur upd fix_absmax all_fixed negb andb].
-      apply (IH true v v (up + 1) idl true); auto.
-      * unfold Rel. cbn [r_reg r_phase r_sum r_base r_max].
+      apply (IH true v v (up + 1) idl true);
+        [|exact Hwf'|intros E; rewrite Hni in E; discriminate|intros E; specialize (Hao E); cbn in Hao; exact Hao].
+      unfold Rel. cbn [r_reg r_phase r_sum r_base r_max].
         split; [reflexivity|]. split; [cbn; split; [lia|reflexivity]|].
         split; [reflexivity|]. split; [exact He|]. split; [exact He|].
         split; [rewrite Hni; discriminate|].
@@ -130,7 +130,6 @@ Proof.
           - destruct Rao as (_ & _ & _ & ->). cbn. repeat split; auto. lia. }
         intros Hb. destruct (Rb Hb) as [B1 B2]. cbn [amax incs fold_right] in B2.
         fold (amax rest) in B2. fold (incs rest) in B2. split; lia.
-      * intros E. specialize (Hao E). cbn in Hao. exact Hao.
   - (* CFlush *)
     cbn [crun cstep c_reg mk].
     assert (Hrest_io : io = true -> has_abs rest = false) by (intros E; specialize (Hio E); cbn in Hio; exact Hio).
@@ -159,23 +158,23 @@ Proof.
            split; [reflexivity|]. split; [cbn; auto|]. split; [auto|]. split; [exact Rcu|]. split; [exact Rcu|].
            split; [intros; apply sub64_self|].
            split.
-           { intros E. specialize (Rao E). unfold abs_rel in *. destruct mx as [m|]; [|exact Rao].
-             destruct Rao as (A1 & A2 & A3 & A4). repeat split; auto. rewrite A2. reflexivity. lia. }
+           { intros E. specialize (Rao E). unfold abs_rel in *. destruct mx as [m|]; [|destruct Rao as (A1 & A2 & A3 & A4); subst; repeat split; auto].
+             destruct Rao as (A1 & A2 & A3 & A4). subst. repeat split; auto; lia. }
            intros Hb. split; [lia|auto].
         -- (* Owed: send the closing zero *)
            destruct Rph as (_ & -> & _). subst rr.
            cbn [app map option_map fst cref_walk r_reg r_phase r_sum r_base r_max andb negb].
            assert (C1 : (if io then 0 =? su else true) = true) by (destruct io; auto; rewrite (Hsu eq_refl); reflexivity).
            assert (C2 : (if ao then 0 =? odiff mx ba else true) = true) by (destruct ao; auto; rewrite (Hod eq_refl); reflexivity).
-           assert (C3 : (if bound <? two64 then 0 <=? bound else true) = true) by (destruct (bound <? two64); auto).
+           assert (C3 : (if bound <? two64 then 0 <=? bound else true) = true) by (destruct (bound <? two64); [apply N.leb_le; lia|reflexivity]).
            rewrite C1, C2, C3. cbn [andb].
            apply (IH ia cu cu 0 true true); auto.
            unfold Rel. cbn [r_reg r_phase r_sum r_base r_max].
            split; [reflexivity|]. split; [cbn; auto|]. split; [auto|]. split; [exact Rcu|]. split; [exact Rcu|].
            split; [intros; apply sub64_self|].
            split.
-           { intros E. specialize (Rao E). unfold abs_rel in *. destruct mx as [m|]; [|exact Rao].
-             destruct Rao as (A1 & A2 & A3 & A4). repeat split; auto. rewrite A2. reflexivity. lia. }
+           { intros E. specialize (Rao E). unfold abs_rel in *. destruct mx as [m|]; [|destruct Rao as (A1 & A2 & A3 & A4); subst; repeat split; auto].
+             destruct Rao as (A1 & A2 & A3 & A4). subst. repeat split; auto; lia. }
            intros Hb. split; [lia|auto].
         -- destruct Rph as [X _]. congruence.
       * (* updated in the window *)
@@ -198,20 +197,20 @@ Proof.
         split; [reflexivity|]. split; [cbn; auto|]. split; [auto|]. split; [exact Rcu|]. split; [exact Rcu|].
         split; [intros; apply sub64_self|].
         split.
-        { intros E. specialize (Rao E). unfold abs_rel in *. destruct mx as [m|]; [|exact Rao].
-          destruct Rao as (A1 & A2 & A3 & A4). repeat split; auto. rewrite A2. reflexivity. lia. }
+        { intros E. specialize (Rao E). unfold abs_rel in *. destruct mx as [m|]; [|destruct Rao as (A1 & A2 & A3 & A4); subst; repeat split; auto].
+          destruct Rao as (A1 & A2 & A3 & A4). subst. repeat split; auto; lia. }
         intros Hb. split; [lia|auto].
     + (* not registered *)
       subst rr. cbn [app map option_map cref_walk r_reg r_phase r_sum r_base r_max andb negb].
-      destruct ph; cbn in Rph; try (destruct Rph as (_ & X); try destruct X; congruence).
+      destruct ph; cbn in Rph; try (exfalso; intuition congruence).
       destruct Rph as [Hu [[X _]|[_ ->]]]; [discriminate|]. subst up. specialize (Ru eq_refl). subst la.
       apply (IH ia cu cu 0 false false); auto.
       unfold Rel. cbn [r_reg r_phase r_sum r_base r_max].
       split; [reflexivity|]. split; [cbn; auto|]. split; [auto|]. split; [exact Rcu|]. split; [exact Rcu|].
       split; [intros; apply sub64_self|].
       split.
-      { intros E. specialize (Rao E). unfold abs_rel in *. destruct mx as [m|]; [|exact Rao].
-        destruct Rao as (A1 & A2 & A3 & A4). repeat split; auto. rewrite A2. reflexivity. lia. }
+      { intros E. specialize (Rao E). unfold abs_rel in *. destruct mx as [m|]; [|destruct Rao as (A1 & A2 & A3 & A4); subst; repeat split; auto].
+        destruct Rao as (A1 & A2 & A3 & A4). subst. repeat split; auto; lia. }
       intros Hb. split; [lia|auto].
 Qed.
 
@@ -227,3 +226,72 @@ Proof.
   - intros E. apply negb_true_iff in E. exact E.
   - intros E. apply negb_true_iff in E. exact E.
 Qed.
+
+(* ------------------------------------------------------------------ histogram walker on the model *)
+From Coq Require Import Permutation.
+Require Import MV.C10.ProofsSeq.
+
+Lemma insert_comm x y : forall l, insert_z x (insert_z y l) = insert_z y (insert_z x l).
+Proof.
+  induction l as [|a r IH]; cbn.
+  - destruct (x <=? y)%Z eqn:E1, (y <=? x)%Z eqn:E2; try reflexivity.
+    + apply Z.leb_le in E1, E2. assert (x = y) by lia. subst. reflexivity.
+    + apply Z.leb_gt in E1, E2. lia.
+  - destruct (y <=? a)%Z eqn:Eya, (x <=? a)%Z eqn:Exa; cbn.
+    + destruct (x <=? y)%Z eqn:E1, (y <=? x)%Z eqn:E2; cbn; rewrite ?Eya, ?Exa; try reflexivity.
+      * apply Z.leb_le in E1, E2. assert (x = y) by lia. subst. reflexivity.
+      * apply Z.leb_gt in E1, E2. lia.
+    + destruct (x <=? y)%Z eqn:E1; cbn; rewrite ?Eya, ?Exa; try reflexivity.
+      apply Z.leb_le in E1, Eya. apply Z.leb_gt in Exa. lia.
+    + destruct (y <=? x)%Z eqn:E2; cbn; rewrite ?Eya, ?Exa; try reflexivity.
+      apply Z.leb_le in E2, Exa. apply Z.leb_gt in Eya. lia.
+    + rewrite Eya, Exa. f_equal. apply IH.
+Qed.
+
+Lemma sort_perm a b : Permutation a b -> sort_z a = sort_z b.
+Proof.
+  induction 1.
+  - reflexivity.
+  - unfold sort_z in *. cbn [fold_right]. rewrite IHPermutation. reflexivity.
+  - unfold sort_z. cbn [fold_right]. apply insert_comm.
+  - congruence.
+Qed.
+
+Lemma zlist_eqb_refl l : zlist_eqb l l = true.
+Proof. induction l; cbn; auto. rewrite Z.eqb_refl. exact IHl. Qed.
+
+(* sampling on: no window exceeds the reservoir (beyond that the reservoir replaces at random: C16) *)
+Fixpoint hwin_ok (rsv : N) (n : nat) (es : list hev) : bool :=
+  match es with
+  | [] => true
+  | HReg :: r => hwin_ok rsv n r
+  | HRec _ :: r => hwin_ok rsv (S n) r
+  | HFlush :: r => (N.of_nat n <=? rsv) && hwin_ok rsv 0 r
+  end.
+
+Lemma histogram_refines samp rsv : forall es st win,
+  Permutation win (h_bag st) ->
+  (samp = true -> hwin_ok rsv (length win) es = true) ->
+  href_walk samp rsv win es (map (fun bl => sort_z (concat bl)) (hrun samp st es)) = true.
+Proof.
+  induction es as [|e r IH]; intros st win Hp Hw; [reflexivity|].
+  destruct e; cbn [hrun hstep app map href_walk].
+  - apply (IH {| h_bag := h_bag st; h_reg := true |}); auto.
+  - apply (IH {| h_bag := h_bag st ++ [z]; h_reg := true |}).
+    + cbn [h_bag]. eapply Permutation_trans; [|apply Permutation_cons_append]. constructor. exact Hp.
+    + intros E. specialize (Hw E). exact Hw.
+  - assert (Hc : (samp && (rsv <? N.of_nat (length win))) = false).
+    { destruct samp; [|reflexivity]. specialize (Hw eq_refl). cbn in Hw. apply andb_true_iff in Hw.
+      destruct Hw as [Hw _]. apply N.leb_le in Hw. cbn. apply N.ltb_ge. exact Hw. }
+    rewrite Hc.
+    assert (Es : sort_z (concat (blocks_of samp (h_bag st))) = sort_z win).
+    { apply sort_perm. eapply Permutation_trans; [apply blocks_perm|]. apply Permutation_sym. exact Hp. }
+    rewrite Es, zlist_eqb_refl. cbn [andb].
+    apply (IH {| h_bag := []; h_reg := h_reg st |}); [constructor|].
+    intros E. specialize (Hw E). cbn in Hw. apply andb_true_iff in Hw. tauto.
+Qed.
+
+Theorem histogram_ok_on_model samp rsv es :
+  (samp = true -> hwin_ok rsv 0 es = true) ->
+  histogram_ok samp rsv es (map (fun bl => sort_z (concat bl)) (hrun samp hst0 es)) = true.
+Proof. intros H. apply histogram_refines; [constructor|exact H]. Qed.
